@@ -1350,6 +1350,7 @@ func PreciseWrite(before, sent *v1.Node, notBefore, now time.Time, effect v1.Tai
 // M15: taint writes are precise and never restart a grace period (C15, history half).
 func (w *World) M15(rec *ScanRecord) []Violation {
 	var out []Violation
+	cycled := map[string]string{} // node -> "removed" / "added": what this scan's accepted writes did to its escalator taint so far
 	for _, gr := range rec.Groups {
 		read := map[string]time.Time{}
 		for _, e := range gr.Seg {
@@ -1358,6 +1359,21 @@ func (w *World) M15(rec *ScanRecord) []Violation {
 			}
 			if e.Kind != sim.KUpdate || !e.OK() {
 				continue
+			}
+			// taking the taint off and putting it back on within one scan restarts the node's grace
+			// period just as a re-stamp does (a scan scales a group up or down, never both)
+			if e.Before != nil && e.Sent != nil {
+				_, had := ref.HasTaint(e.Before, ref.TaintKey)
+				_, has := ref.HasTaint(e.Sent, ref.TaintKey)
+				switch {
+				case had && !has:
+					cycled[e.Node] = "removed"
+				case !had && has:
+					if cycled[e.Node] == "removed" {
+						out = append(out, viol("C15", "taint-renewed-within-a-scan", "node %s: the escalator taint was removed and written again in the same scan (new time stamp)", e.Node))
+					}
+					cycled[e.Node] = "added"
+				}
 			}
 			g := w.GroupOfNode(e.Before)
 			var eff v1.TaintEffect
